@@ -143,6 +143,13 @@ def analyse_unit(unit):
         if known and kind is None:
             continue
         spans = sorted(d.get("spans", []), key=lambda s: not s.get("is_primary"))
+        # a span inside a std / vstd macro (unreachable!, panic!, assert!) is followed back to its call site in the unit
+        def _site(sp, depth=0):
+            if sp.get("file_name", "").endswith(unit + ".rs") or depth > 8:
+                return sp
+            ex = (sp.get("expansion") or {}).get("span")
+            return _site(ex, depth + 1) if ex else sp
+        spans = [_site(sp) for sp in spans]
         loc_item = None
         src_line = 0
         src_file = None
